@@ -67,3 +67,14 @@ func TxHash(tx *ethtypes.Transaction) common.Hash {
 	}
 	return info.Hash
 }
+
+// TxUnmarshalBinary: RLP decoding of registered bytes yields a copy of the registered transaction; anything else
+// is undecodable.
+func TxUnmarshalBinary(tx *ethtypes.Transaction, b []byte) error {
+	info := txByHandle[string(b)]
+	if info == nil {
+		return ethtypes.ErrTxTypeNotSupported
+	}
+	*tx = *info.Tx
+	return nil
+}
